@@ -298,9 +298,10 @@ static int ratom_match(struct ratom *ra, struct rstate *rs)
 	}
 	if (ra->ra == RA_CHR) {
 		int pos = 0;
+		int spos = 0;	/* position in the text; its characters may differ in length */
 		while (ra->s[pos]) {
 			int c1 = uc_dec(ra->s + pos);
-			int c2 = uc_dec(rs->s + pos);
+			int c2 = uc_dec(rs->s + spos);
 			if (rs->flg & REG_ICASE && c1 < 128 && isupper(c1))
 				c1 = tolower(c1);
 			if (rs->flg & REG_ICASE && c2 < 128 && isupper(c2))
@@ -308,8 +309,9 @@ static int ratom_match(struct ratom *ra, struct rstate *rs)
 			if (c1 != c2)
 				return 1;
 			pos += uc_len(ra->s + pos);
+			spos += uc_len(rs->s + spos);
 		}
-		rs->s += pos;
+		rs->s += spos;
 		return 0;
 	}
 	if (ra->ra == RA_ANY) {
